@@ -12,12 +12,12 @@ import (
 	"os"
 	"os/exec"
 	"path/filepath"
-	"regexp"
 	"sort"
 	"strings"
 	"time"
 
 	"github.com/gardenbed/emerge/verif/ev"
+	"github.com/gardenbed/emerge/verif/ref/cliref"
 )
 
 var inputs = map[string]string{
@@ -33,21 +33,19 @@ var inputOrder = []string{"valid", "lexical", "semantic", "tokconf", "lalrconf",
 
 var names = []string{"", "pk", "if", "1x", "a-b", "_", "a/b", "Größe", "demo"}
 
+// moreNames are tried in a reduced product (valid / semantic input x three pre-states x {no flag, -debug}): every way a
+// name can fail to be an identifier that the first list does not have (numeric but not decimal-digit runes, a leading
+// non-ASCII digit, combining marks, blanks, dots), non-ASCII identifiers, and predeclared identifiers.
+var moreNames = []string{"x²", "vⅧ", "half½", "x٣", "٣x", "π", "ａｂ", "e\u0301", "a b", "a.b", "a\\b", "..", ".", "int", "any", "nil", "Demo2", "__", "_x", "x_"}
+
 var preStates = []string{"out-missing", "out-is-file", "out-empty", "pkg-empty-dir", "pkg-dir-with-user-files", "pkg-dir-with-target-files", "pkg-is-file", "pkg-symlink-to-dir", "pkg-symlink-dangling", "no-out-flag"}
 
 var targetFiles = []string{"errors.go", "input.go", "lexer.go", "parser.go", "stack.go", "types.go"}
 
-var idRE = regexp.MustCompile(`^[\p{L}_][\p{L}\p{Nd}_]*$`)
-
-var reserved = map[string]bool{}
-
-func init() {
-	for _, w := range strings.Fields("break default func interface select case defer go map struct chan else goto package switch const fallthrough if range type continue for import return var any bool byte comparable complex64 complex128 error float32 float64 int int8 int16 int32 int64 rune string uint uint8 uint16 uint32 uint64 uintptr true false iota nil append cap clear close complex copy delete imag len make max min new panic print println real recover") {
-		reserved[w] = true
-	}
-}
-
-func usable(name string) bool { return idRE.MatchString(name) && !reserved[name] }
+// usable: the name can be the identifier of a Go package clause (go/token decides); "either": a predeclared identifier,
+// legal for Go but refused by emerge - both answers are compatible with the property.
+func usable(name string) bool { return cliref.NameClass(name) != "unusable" }
+func grey(name string) bool   { return cliref.NameClass(name) == "predeclared" }
 
 type config struct {
 	Name, Input, Pre          string
@@ -313,6 +311,11 @@ func judge(r *ev.Run, bin, tmp string, c config, res result) {
 				report("-help/-version created %v", created)
 			}
 			return
+		case grey(name):
+			// either refused or generated; the coupling of status, announcement and completeness is checked below
+			if res.code == 0 && (!announced || !complete) {
+				report("exit status 0 for the predeclared name %q but success announced: %v, package complete: %v", name, announced, complete)
+			}
 		case expectSuccess && (res.code != 0 || !announced || !complete):
 			report("an acceptable specification with a usable name and a free location must succeed: exit status %d, success announced: %v, package complete: %v (created: %v)", res.code, announced, complete, created)
 		case !expectSuccess && (res.code == 0 || announced):
@@ -421,7 +424,7 @@ func main() {
 			os.RemoveAll(filepath.Dir(bin))
 		}
 		os.RemoveAll(tmp)
-		r.Set("rule", "configurations: name x input class x pre-state of the output location x flag subsets (complete product in thorough; in quick every pair of dimensions is covered); faults: for every successful configuration an error (ENOSPC, EACCES, EIO) injected into the k-th mkdirat / openat / write / newfstatat for every k the fault-free run performs (strace inject); non-trivial = every configuration (distinct by configuration)")
+		r.Set("rule", "configurations: name (9 names in the full product, 20 further identifier / non-identifier names in a reduced one; go/token decides what an identifier is) x input class x pre-state of the output location x flag subsets (complete product in thorough; in quick every pair of dimensions is covered); faults: for every successful configuration an error (ENOSPC, EACCES, EIO) injected into the k-th mkdirat / openat / write / newfstatat for every k the fault-free run performs (strace inject); non-trivial = every configuration (distinct by configuration)")
 		r.Set("evaluations", r.Get("runs"))
 		r.Finish()
 	}
@@ -461,6 +464,15 @@ func main() {
 						}
 					}
 					do(c)
+				}
+			}
+		}
+	}
+	for _, name := range moreNames {
+		for _, input := range []string{"valid", "semantic"} {
+			for _, pre := range []string{"out-empty", "pkg-empty-dir", "no-out-flag"} {
+				for _, dbg := range []bool{false, true} {
+					do(config{Name: name, Input: input, Pre: pre, Debug: dbg})
 				}
 			}
 		}
